@@ -77,6 +77,14 @@ Proof.
   unfold select_delete_delete. rewrite truthy_some. unfold mem_rowid.
   induction pg as [|x pg IH]; cbn; [reflexivity|]. rewrite IH, (Z.eqb_sym (rowid r)). reflexivity.
 Qed.
+Lemma bridge_peekitem_select_in (l : bool) t r :
+  In r (if l then peekitem_select_last t else peekitem_select_first t) -> In r t.
+Proof.
+  unfold peekitem_select_last, peekitem_select_first. destruct l; intros I;
+    apply sql_limit_in, ExpiryFacts.sql_order_in in I; exact I.
+Qed.
+Lemma bridge_cull_disabled_0 : cull_disabled 0 = true.
+Proof. reflexivity. Qed.
 Lemma mem_rowid_one i r0 : mem_rowid i [r0] = (i =? rowid r0).
 Proof. unfold mem_rowid. cbn. rewrite orb_false_r. apply Z.eqb_sym. Qed.
 
@@ -795,7 +803,7 @@ Proof.
 Qed.
 
 Lemma cull_disabled_0 c now pg s : c_cull_limit c = 0 -> cull c now pg s = (s, []).
-Proof. intros E. unfold cull. rewrite E. reflexivity. Qed.
+Proof. intros E. unfold cull. rewrite E, bridge_cull_disabled_0. reflexivity. Qed.
 
 (* cull, then remove the files handed to cleanup: back to the full invariant *)
 Lemma sinv_finish c now pg s2 cl l :
@@ -1061,9 +1069,7 @@ Lemma sinv_peekitem_loop c l now fuel : forall s, Sinv s -> Sinv (fst (op_peekit
 Proof.
   induction fuel as [|f IH]; intros s H; cbn [op_peekitem_loop]; [exact H|].
   destruct (if l then peekitem_select_last (rows s) else peekitem_select_first (rows s)) as [|r0 rs] eqn:S; [exact H|].
-  assert (I0 : In r0 (rows s)).
-  { assert (I : In r0 (if l then peekitem_select_last (rows s) else peekitem_select_first (rows s))) by (rewrite S; left; reflexivity).
-    unfold peekitem_select_last, peekitem_select_first in I. destruct l; apply sql_limit_in, ExpiryFacts.sql_order_in in I; exact I. }
+  assert (I0 : In r0 (rows s)) by (apply (bridge_peekitem_select_in l); rewrite S; left; reflexivity).
   destruct (peekitem_expired _ _).
   - apply IH. apply sinv_delete_one; auto. intros r. apply bridge_peekitem_delete.
   - destruct (fetch_row _ _ _ _); exact H.
